@@ -260,3 +260,36 @@ func decimalInputs(rng *rand.Rand, n int) []input {
 	}
 	return out
 }
+
+// shortSpellings returns random hexadecimal literals with fewer digits than the full form
+// (LLVM accepts them and completes them as described in spec/FloatLit.tla above ShortForms).
+func shortSpellings(rng *rand.Rand, n int) []input {
+	forms := []struct {
+		kind, prefix string
+		full         int
+	}{{"half", "0xH", 4}, {"half", "0x", 16}, {"float", "0x", 16}, {"double", "0x", 16}, {"x86_fp80", "0xK", 20}, {"fp128", "0xL", 32}, {"ppc_fp128", "0xM", 32}}
+	const digits = "0123456789ABCDEFabcdef"
+	var out []input
+	for i := 0; i < n; i++ {
+		for _, f := range forms {
+			l := 1 + rng.Intn(f.full-1)
+			b := make([]byte, l)
+			for j := range b {
+				switch rng.Intn(6) {
+				case 0:
+					b[j] = '0'
+				case 1:
+					b[j] = 'F'
+				default:
+					b[j] = digits[rng.Intn(len(digits))]
+				}
+			}
+			if f.prefix == "0x" && f.kind != "double" && rng.Intn(2) == 0 {
+				// half/float: a short double-format spelling is valid only for zero; use trailing zeros instead
+				continue
+			}
+			out = append(out, input{q: query{f.kind, f.prefix + string(b)}, tag: "random-short"})
+		}
+	}
+	return out
+}
